@@ -267,6 +267,13 @@ def _corpus_families(big):
                 des = [0, 1, 2, 3] if any(2 in cr for cr in crossings) else [0, 1, 3]
                 out.append({"factors": [c, t, m3, tr], "block": {"k": "multicross", "design": des, "crossings": crossings,
                             "cs": [], "rcc": True, "mode": mode, "align": align}})
+    # a block whose crossing is a one-level factor, 6 (5) trials, AtLeastKInARow(3) given to the block, repeated twice: the
+    # rule about runs near the end of the window holds in *every* repetition
+    one = _sf(1, ["only"])
+    for blk_n in (6, 5):
+        out.append({"factors": [c, one], "block": {"k": "repeat", "cs": [{"k": "MinimumTrials", "n": 2 * blk_n}],
+                    "b": {"k": "cross", "design": [0, 1], "crossing": [1], "rcc": True,
+                          "cs": [{"k": "MinimumTrials", "n": blk_n}, {"k": "AtLeastKInARow", "n": 3, "f": 0, "l": 0}]}}})
     # POST_PREAMBLE, crossings with different preambles in both orders, and a constraint scoped to the block's window
     # (which starts at trial 0 and includes the unified preamble)
     out.mark()
@@ -435,6 +442,11 @@ def _corpus_families(big):
                         "cs": [{"k": "Sequential", "f": 0}] + extra}})
     out.append({"factors": [s3, s2], "block": {"k": "repeat", "cs": [{"k": "MinimumTrials", "n": 6}],
                 "b": {"k": "cross", "design": [0, 1], "crossing": [0], "rcc": True, "cs": [{"k": "Sequential", "f": 0}]}}})
+    # Sequential on a factor that shares its crossing with a Transition factor: the cycle starts after the preamble
+    sq2, sqc, sq3 = _sf(0, ["a", "b"]), _sf(1, ["x", "y"]), _sf(0, ["a", "b", "c"])
+    for first in (sq2, sq3):
+        out.append({"factors": [first, sqc, _transition(2, 1, 2)], "block": {"k": "cross", "design": [1, 0, 2], "crossing": [0, 2],
+                    "rcc": True, "cs": [{"k": "Sequential", "f": 0}]}})
     # Sequential on a weighted factor outside the crossing (it cycles through the level *copies*: big, big, small)
     wsz = _sf(1, ["big", "small"], [2, 1])
     c2s = _sf(0, ["r", "g"])
@@ -488,6 +500,38 @@ def _corpus_families(big):
         ww = {"id": 3, "name": "f3", "window": {"deps": deps, "width": 1, "stride": 1, "start": None, "kind": "within"},
               "levels": [{"name": "hit", "w": 1, "table": hit}, {"name": "miss", "w": 1, "table": [1 - x for x in hit]}]}
         out.append({"factors": [wa, wb, wt, ww], "block": {"k": "cross", "design": [0, 1, 2, 3], "crossing": [0, 1], "rcc": True, "cs": []}})
+    out.mark()
+    # an ElseLevel that is not the last level of its factor (within-trial and Transition)
+    e3 = _sf(0, ["red", "green", "blue"])
+    ekind = {"id": 1, "name": "f1", "window": {"deps": [0], "width": 1, "stride": 1, "start": None, "kind": "within"},
+             "levels": [{"name": "warm", "w": 1, "table": [0, 1, 0, 0]}, {"name": "other", "w": 1, "table": [1, 0, 1, 0], "else": True},
+                        {"name": "cool", "w": 1, "table": [0, 0, 0, 1]}]}
+    efirst = dict(ekind, levels=[ekind["levels"][1], ekind["levels"][0], ekind["levels"][2]])
+    for fac in (ekind, efirst):
+        out.append({"factors": [e3, fac], "block": {"k": "cross", "design": [0, 1], "crossing": [0], "rcc": True, "cs": []}})
+        out.append({"factors": [e3, fac], "block": {"k": "cross", "design": [0, 1], "crossing": [0], "rcc": True,
+                    "cs": [{"k": "AtMostKInARow", "n": 1, "f": 1, "l": 1}]}})
+    etr = _transition(1, 0, 2)
+    etr["levels"] = [dict(etr["levels"][1], **{"else": True}), etr["levels"][0]]
+    out.append({"factors": [_sf(0, ["r", "g"]), etr], "block": {"k": "cross", "design": [0, 1], "crossing": [0, 1], "rcc": True, "cs": []}})
+    out.mark()
+    # two *implied* within-trial factors, the dependent one listed before the one it reads (and the plain order)
+    ic = _sf(0, ["r", "g"])
+    ii1 = {"id": 1, "name": "f1", "window": {"deps": [0], "width": 1, "stride": 1, "start": None, "kind": "within"},
+           "levels": [{"name": "isr", "w": 1, "table": [0, 1, 0]}, {"name": "notr", "w": 1, "table": [1, 0, 1]}]}
+    ii2 = {"id": 2, "name": "f2", "window": {"deps": [1], "width": 1, "stride": 1, "start": None, "kind": "within"},
+           "levels": [{"name": "yes", "w": 1, "table": [0, 1, 0]}, {"name": "no", "w": 1, "table": [1, 0, 1]}]}
+    for order in ([0, 2, 1], [2, 1, 0], [0, 1, 2]):
+        out.append({"factors": [ic, ii1, ii2], "block": {"k": "cross", "design": order, "crossing": [0], "rcc": True, "cs": []}})
+    # two crossed within-trial factors over overlapping sources (region of the open finding F32)
+    ia, ib = _sf(0, ["1", "2"]), _sf(1, ["1", "2"])
+    ieq = [0] * 9
+    ieq[4] = ieq[8] = 1
+    id1 = {"id": 2, "name": "f2", "window": {"deps": [0, 1], "width": 1, "stride": 1, "start": None, "kind": "within"},
+           "levels": [{"name": "eq", "w": 1, "table": ieq}, {"name": "ne", "w": 1, "table": [1 - x for x in ieq]}]}
+    id2 = {"id": 3, "name": "f3", "window": {"deps": [0], "width": 1, "stride": 1, "start": None, "kind": "within"},
+           "levels": [{"name": "one", "w": 1, "table": [0, 1, 0]}, {"name": "two", "w": 1, "table": [1, 0, 1]}]}
+    out.append({"factors": [ia, ib, id1, id2], "block": {"k": "cross", "design": [0, 1, 2, 3], "crossing": [2, 3], "rcc": True, "cs": []}})
     out.mark()
     # a within-trial derived factor over another derived factor, both uncrossed but kept in the problem by a
     # constraint, listed in the design *before* the factor it depends on (fill-in order must follow dependencies)
